@@ -148,6 +148,23 @@ static unsigned long long parse_as(const char* kind, const String& s, bool stat)
   return (unsigned long long)(stat ? String::toUInt64((const char*)s) : s.toUInt64());
 }
 
+// the member conversions on a String that is a non-owning view (attach) of exactly the text, inside a buffer that goes
+// on with more digits and has no terminator: the conversion must be that of the String's own bytes
+static unsigned long long parse_view(const char* kind, const unsigned char* txt, long n)
+{
+  unsigned char* buf = (unsigned char*)malloc((size_t)n + 3);
+  memcpy(buf, txt, (size_t)n);
+  buf[n] = '7'; buf[n + 1] = '1'; buf[n + 2] = '9';
+  unsigned long long r;
+  {
+    String v;
+    v.attach((const char*)buf, (usize)n);
+    r = parse_as(kind, v, false);
+  }
+  free(buf);
+  return r;
+}
+
 void drv_apply(const char* op)
 {
   if(!strcmp(op, "cps"))
@@ -208,6 +225,7 @@ void drv_apply(const char* op)
     j_bytes("txt", (const unsigned char*)(const char*)s, (long)s.length());
     put_limbs("back", parse_as(kind, s, false), nl);
     put_limbs("sback", parse_as(kind, s, true), nl);
+    put_limbs("vback", parse_view(kind, (const unsigned char*)(const char*)s, (long)s.length()), nl);
     j_end();
   }
   else if(!strcmp(op, "parse"))
@@ -219,6 +237,7 @@ void drv_apply(const char* op)
     j_begin(op); j_str("kind", kind); j_bytes("txt", p, n);
     put_limbs("back", parse_as(kind, s, false), nl);
     put_limbs("sback", parse_as(kind, s, true), nl);
+    put_limbs("vback", parse_view(kind, p, n), nl);
     j_end();
     free(p);
   }
